@@ -3,9 +3,10 @@
    stay extracted inductives. *)
 Require Extraction.
 Require Import ExtrOcamlBasic.
-From DS Require Import Base PyStr Values Expr TabParse Interp Options Tables Constants.
+From DS Require Import Base PyStr Values Expr TabParse Interp Options Cli CliWorld Tables Constants.
 Extraction Language OCaml.
 
 Extraction "model.ml" compile_text compile_raw tokenize prepare_text parse_document convert_to
   is_var all_vars Z_to_str N_to_str upper strip split_ws1 default_options palette
-  calculate_options rewritten_config options_of_yaml.
+  calculate_options rewritten_config options_of_yaml
+  cli_run normalise_name main_name parent child.
